@@ -36,7 +36,7 @@ ASSUME = [
     "a callee started with `thread` never executes `waitthread` (it would suspend and interleave with its caller; Lang.Sem runs calls synchronously)",
     "array keys are integers or non-numeric strings (an integer key and the string of its digits hash differently but compare equal: table-state dependent behaviour, not generated)",
     "every `throw` is caught in its own thread; `goto` targets carry no parameters; case labels fit in 32 bits",
-    "no program reaches a script error, division by zero, INT64_MIN / -1 or a shift count outside 0..63 (by construction)",
+    "no program reaches a script error or a division by zero (by construction)",
 ]
 
 
@@ -129,18 +129,17 @@ def replace_list(prog, path, new):
 
 def live_consts(g):
     """constants whose defining assignment `k = literal` is still in the program (a layout may inline only those)"""
-    defs = set()
+    defs = []
 
     def walk(ss):
         for s in ss:
-            if s[0] == "assign" and s[1][0] == "var":
-                defs.add((("var", s[1][1], s[1][2]), s[2]))
+            if not isinstance(s, tuple):
+                continue
+            if s[0] == "assign" and s[1][0] == "var" and s[2][0] in ("int", "str", "neg"):
+                defs.append((("var", s[1][1], s[1][2]), s[2]))
             for x in s[1:]:
-                if isinstance(x, list) and x and isinstance(x[0], tuple) and isinstance(x[0][0], str):
-                    try:
-                        walk(x)
-                    except (TypeError, IndexError):
-                        pass
+                if isinstance(x, list) and x and isinstance(x[0], tuple) and x[0] and isinstance(x[0][0], str):
+                    walk(x)
     walk(g["prog"])
     return {k: v for k, v in g["consts"].items() if (k, v) in defs}
 
@@ -259,16 +258,17 @@ def py_bin(op, a, b):
     if op == "sub": return s64(a - b)
     if op == "mul": return s64(a * b)
     if op in ("div", "mod"):
-        if b == 0 or (a == -(1 << 63) and b == -1):
+        if b == 0:
             return None
+        if b == -1:
+            return s64(-a) if op == "div" else 0
         q = abs(a) // abs(b) * (1 if (a >= 0) == (b >= 0) else -1)
         return s64(q) if op == "div" else s64(a - q * b)
     if op == "band": return s64(a & b)
     if op == "bor": return s64(a | b)
     if op == "bxor": return s64(a ^ b)
     if op in ("shl", "shr"):
-        if not 0 <= b < 64:
-            return None
+        b &= 63
         return s64(a << b) if op == "shl" else s64(a >> b)
     if op == "eq": return int(a == b)
     if op == "ne": return int(a != b)
@@ -368,6 +368,11 @@ def literal_family():
         prog.append(("assign", ("var", "level", "c%d" % i), ("compl", k)))
         prog.append(("assign", ("var", "level", "s%d" % i), ("bin", "add", ("str", ""), k)))
         prog.append(("assign", ("var", "level", "b%d" % i), ("land", k, ("int", 1))))
+        prog.append(("assign", ("var", "level", "t%d" % i), ("not", k)))
+        prog.append(("assign", ("var", "level", "u%d" % i), ("not", ("not", k))))
+        prog.append(("ite", ("not", k), [("print", True, [("str", "zero"), ("int", i)])], [("print", True, [("str", "nonzero"), ("int", i)])]))
+        prog.append(("assign", ("var", "level", "e%d" % i), ("bin", "eq", k, ("str", str(v)))))
+        prog.append(("assign", ("var", "level", "f%d" % i), ("bin", "eq", ("str", str(v)), ("bin", "add", k, ("int", 0)))))
         prog.append(("print", True, [k, ("neg", k), ("bin", "add", k, ("int", 1)), ("bin", "sub", ("neg", k), ("int", 1))]))
     prog.append(("assign", ("var", "level", "imin"), ("bin", "sub", ("neg", ("int", (1 << 63) - 1)), ("int", 1))))
     prog.append(("print", True, [("var", "level", "imin"), ("bin", "add", ("str", "x"), ("var", "level", "imin"))]))
